@@ -30,14 +30,9 @@ from . import common, zoo
 PID = "C04"
 MYV = ["State/ConfigFlag", "State/DotDispatch", "Corr/CheckC04", "Props/C04"]
 
-# genuine (minor) gap of the unchanged code, proposed for known_findings.json
-PROPOSED_KNOWN = [
-    {"id": "C04-setter-order", "property": "C04",
-     "what": "LinearOperator.shape setter validates against dims/dimsd only when BOTH are already set: "
-             "on a bare LinearOperator `Op.dims=(5,); Op.shape=(3,4)` is accepted and leaves shape != (prod(dimsd), prod(dims)) "
-             "(no library constructor assigns in this order)",
-     "trigger": "setter sequence in which shape is assigned after exactly one of dims/dimsd"},
-]
+# genuine defects of the unchanged code proposed for known_findings.json (none at present: the
+# shape-setter hole `Op.dims=(5,); Op.shape=(3,4)` was fixed in /repo by commit 55eb95e)
+PROPOSED_KNOWN = []
 
 
 # ------------------------------------------------------------------ coq build of own files
@@ -926,7 +921,7 @@ def main(tier):
     thms, axioms = common.props_assumptions(PID)
     if axioms and not set(axioms) <= common.ALLOWED_AXIOMS:
         R.violation("Props/C04.v depends on unexpected axioms %s" % axioms, {"axioms": axioms}, no_input=True)
-    known = [k for k in common.load_known() if k.get("property") == PID] or PROPOSED_KNOWN
+    known = [k for k in common.load_known() if k.get("property") == PID] + PROPOSED_KNOWN
 
     t0 = time.time()
     fc = flag_cases(tier)
@@ -994,7 +989,8 @@ def main(tier):
     CAP = 6          # replay files per kind of disagreement (the total number of disagreements is reported in the notes)
     for i, cd in sorted(codes.items()):
         kind, c = allc[i]
-        is_known_candidate = kind == "set" and cd == [2] and known_setter_trigger(c["ops"])
+        is_known_candidate = kind == "set" and cd == [2] and known_setter_trigger(c["ops"]) and \
+            any(k["id"] == "C04-setter-order" for k in known)
         if not is_known_candidate:
             perkind[kind] = perkind.get(kind, 0) + 1
             if perkind[kind] > CAP:
@@ -1114,5 +1110,4 @@ def main(tier):
     R.samples = [{"flag_program": prog_str(fc[len(fc) // 3]["p"]), "init": fc[len(fc) // 3]["f0"], "observed(final,raised,trace)": fc[len(fc) // 3]["obs"]}] + \
         [{"op": c["spec"], "dims": c["dims"], "dimsd": c["dimsd"], "forceflat": c["ff"], "input_shape": c["xs"], "flag": c["flag"], "outcome": c["cls"], "out_shape": c["shape"]}
          for c in G["dot"][::max(1, len(G["dot"]) // 6)]]
-    R.notes.append("proposed known finding (until integrated in known_findings.json): %s" % PROPOSED_KNOWN[0]["id"])
     return R.finish()
